@@ -444,6 +444,7 @@ pub fn run_shard(ctx: &mut Ctx) {
     let mut r = Rng::new(ctx.shard_seed());
     let mut stats = C13Stats::default();
     // (a) a writing owner stepped through its file-system calls, contenders at every parked point
+    ctx.begin_phase(0.2);
     let n_writer = if ctx.tier == Tier::Quick { 6 } else { 60 };
     for _ in 0..n_writer {
         if !ctx.time_left() {
@@ -458,7 +459,9 @@ pub fn run_shard(ctx: &mut Ctx) {
         ctx.out.count("writer_rounds", 1);
         ctx.out.count("attempts_against_a_parked_writing_owner", stats.refusals - before);
     }
+    ctx.end_phase();
     // (b) hand-over while the previous owner is still being dropped (its worker parked with queued work)
+    ctx.begin_phase(0.25);
     let n_handover = if ctx.tier == Tier::Quick { 10 } else { 100 };
     for i in 0..n_handover {
         if !ctx.time_left() {
@@ -483,6 +486,7 @@ pub fn run_shard(ctx: &mut Ctx) {
         }
         ctx.out.count("handover_rounds", 1);
     }
+    ctx.end_phase();
     let rounds = if ctx.tier == Tier::Quick { 2 } else { u64::MAX };
     let mut k = 0;
     while k < rounds && ctx.time_left() {
